@@ -159,6 +159,7 @@ type world struct {
 	trigCount      atomic.Int64
 	firstTrigAtEnq atomic.Int64 // enqReturned when the first trigger was sent (-1: none sent)
 	flipActions    atomic.Int64
+	twinBlocks     atomic.Int64
 	tracerObs      []addTracerObs
 	tracerObsMu    sync.Mutex
 	pendingAtShut  int64
@@ -397,7 +398,15 @@ func (p *producer) runPhase(phase int, nops int) {
 				kind = "tracer"
 			}
 		}
+		if w.sc.Family == "twin" && k%3 == 0 {
+			kind = "twin"
+		} else if w.sc.Tracers && w.sc.Dense && k >= 97 {
+			kind = "twin"
+		}
 		if kind == "tracer" && !w.sc.Tracers {
+			kind = "uniq"
+		}
+		if flip && kind == "twin" {
 			kind = "uniq"
 		}
 		if flip && kind != "tracer" {
@@ -475,8 +484,77 @@ func (p *producer) runPhase(phase int, nops int) {
 			}
 		case "tracer":
 			ops += p.tracerBlock(phase)
+		case "twin":
+			ops += p.twinBlock(phase)
 		}
 	}
+}
+
+// twinBlock: a plain line through a tracer-method call site with a nil tracer (the
+// log.Tracer(ctx).Info(msg) idiom when the context has no tracer) directly next to
+// submissions of real tracers whose main (last) line comes from the same call site
+// with the same text. Same site, text, severity, file and line -- but a submission is
+// never "the same line" as a plain line: each must arrive as its own entry.
+func (p *producer) twinBlock(phase int) int {
+	w := p.w
+	r := p.rng
+	var pkgs []int
+	for pk := 0; pk < nPkgs; pk++ {
+		if w.certainlyEnabled(phase, pk, 1) {
+			pkgs = append(pkgs, pk)
+		}
+	}
+	if len(pkgs) == 0 {
+		// no directory where a tracer can exist in this phase
+		p.uniq++
+		s := p.randSite(false)
+		p.logLine(phase, s, fmt.Sprintf("g%d#%d", p.id, p.uniq), w.certainlyEnabled(phase, sitePkg(s), siteLvl(s)))
+		return 1
+	}
+	pkg := pkgs[r.Intn(len(pkgs))]
+	site := siteID(pkg, 2+r.Intn(2), r.Range(1, nLevels))
+	p.trSeq++
+	x := fmt.Sprintf("g%dTW%d", p.id, p.trSeq)
+	patterns := []string{"PS", "SP", "PPS", "SS", "SPP", "PSP", "SPS", "PSS"}
+	pat := patterns[r.Intn(len(patterns))]
+	nsub := 0
+	for _, c := range pat {
+		if w.shouldStop() {
+			break
+		}
+		if c == 'P' {
+			p.logLine(phase, site, x, true)
+			continue
+		}
+		_, tr := addTracer(pkg, context.Background())
+		w.tracerObsMu.Lock()
+		w.tracerObs = append(w.tracerObs, addTracerObs{Phase: phase, Pkg: pkg, Nil: tr == nil})
+		w.tracerObsMu.Unlock()
+		if tr == nil {
+			continue
+		}
+		nsub++
+		var trace []trLine
+		for i, n := 0, r.Range(1, 4); i < n; i++ {
+			t := trLine{0, siteID(pkg, 2+r.Intn(2), r.Range(1, nLevels)), fmt.Sprintf("%sc%d#%d", x, nsub, i)}
+			emit(t.Site, t.Text, tr)
+			trace = append(trace, t)
+		}
+		emit(site, x, tr)
+		trace = append(trace, trLine{0, site, x})
+		p.state.Store(stInCall)
+		i := p.addRec(lineRec{Call: w.tick(), Phase: phase, Kind: kSubmit, Site: site, Text: x, Trace: trace})
+		tr.Submit()
+		ret := w.tick()
+		p.mu.Lock()
+		p.recs[i].Ret = ret
+		p.mu.Unlock()
+		w.enqReturned.Add(1)
+		w.returnedAll.Add(1)
+		p.state.Store(stRun)
+	}
+	w.twinBlocks.Add(1)
+	return len(pat)
 }
 
 // tracerBlock: AddTracer, a few lines (optionally from helper goroutines too), Submit.
@@ -931,6 +1009,21 @@ func runScenario(sc scenario) *world {
 		w.transition.Store(false)
 		if sc.Shutdown != "mid" {
 			w.setStop() // nothing is running any more; releases producers of skipped phases
+			if sc.Sched && sc.Trig.AfterAll {
+				// everything is queued: now let the writer take it in one batch (the
+				// shutdown drain does not merge, the writer's batch loop does)
+				for t0 := time.Now(); time.Since(t0) < 5*time.Second; {
+					log.TriggerWriter()
+					w.trigCount.Add(1)
+					w.ad.mu.Lock()
+					done := w.ad.written >= w.enqReturned.Load()
+					w.ad.mu.Unlock()
+					if done {
+						break
+					}
+					time.Sleep(100 * time.Microsecond)
+				}
+			}
 			doShutdown()
 		} else {
 			// all producers finished before the shutdown moment was reached
